@@ -91,6 +91,7 @@ func checkC13(c *Ctx, r *Result, tier string) {
 	perPkg := map[string]int{}
 	writesSeen := 0
 	c13Atomics(c, r, funcs)
+	c13SharedProvider(c, r)
 	for _, fn := range funcs {
 		perPkg[c.PkgOf(fn)]++
 		key := c.FuncKey(fn)
